@@ -85,6 +85,11 @@ package index
 //@   modifies i.segment, elems(i.segment)
 //@   under_construction i
 //@   ensures [appended-fresh] forall k int :: old(len(i.segment)) <= k && k < len(i.segment) ==> fresh(i.segment[k])
+//@   modifies decodedOK
+//@   effect decodedOK == old(decodedOK) + ite(result1 == nil, 1, 0)
+
+// decodedOK counts snapshot bodies that decoded without error
+//@ ghost var decodedOK int
 
 //@ func Directory.Load(recv, kind, id) (data, closer, err)
 //@   interface
@@ -107,7 +112,8 @@ package index
 //@ func Writer.loadSnapshot
 //@   props C12 C03
 //@   borrow Data.Read until Closer.Close
-//@   modifies openHandles, bytesEqTrue
+//@   modifies openHandles, bytesEqTrue, decodedOK
+//@   at call Data.Read: assert [trailer-read-only-after-the-body-decoded] decodedOK > old(decodedOK)
 //@   assume_frame
 //@   ensures [crc-gate] (result0 != nil && old(s.config.ValidateSnapshotCRC)) ==> bytesEqTrue > old(bytesEqTrue)
 //@   ensures [nil-or-error] (result0 == nil) <==> (result1 != nil)
